@@ -68,6 +68,8 @@ func run(repo, prop, tier string, seed int, out, known, cg, arg string) (code in
 		return debugAccesses(p, arg)
 	case "origin":
 		return debugOrigin(p, arg)
+	case "units":
+		return debugUnits(p, arg)
 	case "dep":
 		return debugDep(p, arg)
 	case "dump":
